@@ -79,6 +79,7 @@ type WorkerOut struct {
 	Reproduced  bool           `json:"reproduced,omitempty"`
 	ReplayTrace []string       `json:"replay_trace,omitempty"`
 	Policies    map[string]int `json:"policies"`
+	RunHashes   []uint64       `json:"run_hashes,omitempty"` // mode hashes: one per run index
 }
 
 // ReplayFile is the on-disk format of a minimised failing run.
@@ -215,6 +216,32 @@ func RunWorker(t *testing.T, scenarios map[string]*Scenario) {
 	case "count":
 		if sc.Enum != nil {
 			out.EnumTotal = len(sc.Enum(in.Thorough))
+		}
+		write()
+		return
+	case "hashes":
+		// determinism self-test: every run index executed here, one hash per
+		// run covering schedule, steps, virtual time and verdict
+		for i := 0; i < in.Random; i++ {
+			seed := Mix(in.Seed, StrSeed(in.Prop), uint64(i), 0xA)
+			p := sc.Gen(NewRand(seed), in.Thorough)
+			if p.Policy == "" {
+				p.Policy = PolUniform
+			}
+			if p.Budget == 0 {
+				p.Budget = 4000
+			}
+			r := Execute(t, sc, p, NewGenChooser(Mix(seed, 1), p.Policy, p.Budget), in.MaxSteps, false)
+			progress.Add(1)
+			h := r.Hash ^ uint64(r.Steps)*0x9E3779B97F4A7C15 ^ uint64(r.VT)*31
+			if r.Viol != nil {
+				h ^= StrSeed(r.Viol.Signature())
+			}
+			for _, k := range SortedKeys(r.Faults) {
+				h = h*1099511628211 ^ StrSeed(k) ^ uint64(r.Faults[k])
+			}
+			out.RunHashes = append(out.RunHashes, h)
+			out.Runs++
 		}
 		write()
 		return
